@@ -36,7 +36,7 @@ COMPONENTS = {
     "real": ["ConstraintInfo.create / transform_from_optimizer", "EnsembleEvaluator", "tracker handler", "VariableScaler"],
     "stub": ["SimEvaluator", "sim/scripted optimizer", "objective/constraint scalers"],
 }
-PROBES = ["results_checked", "point_outside_finite_bound", "mixed_infinite_bounds", "linear_checked", "nonlinear_checked",
+PROBES = ["nested_shared_scaler_linear_checked", "results_checked", "point_outside_finite_bound", "mixed_infinite_bounds", "linear_checked", "nonlinear_checked",
           "functions_none_result", "tracker_rejected_infeasible", "tracker_accepted", "transformed_checked"]
 
 
@@ -64,6 +64,34 @@ def generate(seed: int, index: int, tier: str) -> dict:
         gen.add_nan_faults(rng, scn, rate=1.0, max_faults=2)
     scn["plan"]["trackers"] = [{"what": "last", "tol": rng.choice([None, 0.0, 1e-10, 1e-3, 0.5]), "sources": [0]}]
     scn["stratum"] = "monitor"
+    tr = scn.get("transforms") or {}
+    if nv >= 2 and st["kind"] == "optimizer" and (tr.get("var") or {}).get("scales") and rng.random() < 0.5:
+        # a nested plan on the same variables (so: the same variable transform object) whose inner configuration has its
+        # own linear constraints, with rows of another magnitude
+        import copy as _copy
+
+        if "linear_constraints" not in cfg:
+            cfg["linear_constraints"] = {"coefficients": [[round(rng.uniform(-2, 2), 3) or 1.0 for _ in range(nv)]],
+                                         "lower_bounds": [-gen.INF], "upper_bounds": [round(rng.uniform(-1, 3), 3)]}
+        inner = _copy.deepcopy(cfg)
+        mask = [i == 0 for i in range(nv)]
+        cfg["variables"]["mask"] = mask
+        inner["variables"]["mask"] = [not m for m in mask]
+        factor = rng.choice([10.0, 0.1, 25.0])
+        lc = inner["linear_constraints"]
+        lc["coefficients"] = [[c_ * factor for c_ in row] for row in lc["coefficients"]]
+        lc["lower_bounds"] = [b * factor for b in lc["lower_bounds"]]
+        lc["upper_bounds"] = [b * factor for b in lc["upper_bounds"]]
+        inner["optimizer"]["options"]["script"] = [{"op": "f", "pts": [rng.randrange(3)]}]
+        scn["configs"].append(inner)
+        for e in cfg["optimizer"]["options"]["script"]:
+            e.pop("batch", None)
+            e["pts"] = e["pts"][:1]
+        scn["plan"]["steps"] = [{"kind": "optimizer", "cfg": 0,
+                                 "nested": {"steps": [{"kind": "optimizer", "cfg": 1}], "recorders": ["a"],
+                                            "trackers": [{"what": "last", "tol": None, "sources": [0]}]}}]
+        scn["nested_shared_scaler"] = True
+        scn["stratum"] = "nested"
     return scn
 
 
@@ -147,7 +175,10 @@ def execute(scn: dict) -> dict:
             if ci is None:
                 viol.append({"clause": "linear-info-missing", "sig": {}, "detail": f"{where}: constraint_info is None"})
             else:
-                _check("linear", ci.linear_lower, ci.linear_upper, ci.linear_violation, val, llb, lub, where, viol, {})
+                _check("linear", ci.linear_lower, ci.linear_upper, ci.linear_violation, val, llb, lub, where, viol,
+                       {"nested_shared_scaler": True, "level": ctx.step_meta[ln.step]["level"]} if scn.get("nested_shared_scaler") else {})
+                if scn.get("nested_shared_scaler"):
+                    probe("nested_shared_scaler_linear_checked")
             if tol is not None and np.any(model.violation(val, llb, lub) > tol * 1.0):
                 feasible = False
         if nl is not None and user.functions is not None and user.functions.constraints is not None:
